@@ -319,15 +319,18 @@ def derived_stream(c, tmp, n, pairs, metas):
         engine = rng.choice(["h5netcdf", "h5netcdf", "joblib"])
         d = os.path.join(tmp, f"v{i}")
         os.makedirs(d)
-        kind = rng.choice(["int", "int", "float", "uint8", "int32"])
+        kind = rng.choice(["int", "int", "float", "uint8", "int32", "bool"])
         a = sorted(rng.sample(range(10), rng.randint(1, 3)))
         vals = {"int": np.array([10 * x + 1 for x in a]), "float": np.array([x / 4 for x in a]),
                 "uint8": np.array([x + 1 for x in a], dtype="uint8"),
-                "int32": np.array([x - 5 for x in a], dtype="int32")}[kind]
+                "int32": np.array([x - 5 for x in a], dtype="int32"),
+                "bool": np.array([x % 2 == 0 for x in a])}[kind]
         narrow = rng.random() < 0.3          # the coordinate is stored with a narrow integer type ...
         ds = xr.Dataset({"v": (("a",), vals), "w": (("a",), np.array([float(x) for x in a]))},
                         coords={"a": np.array(a, dtype="int32" if narrow else "int64")})
-        how = rng.choice(["reindex", "merge", "combine_first"])
+        how = rng.choice(["reindex", "merge", "combine_first", "concat"])
+        if kind == "bool":
+            how = "concat"        # (padding a bool variable with missing cells gives an object array: not netCDF data)
         rep = {"stream": "derived-from-loaded", "engine": engine, "dtype": kind, "how": how, "a": a, "narrow_coordinate": narrow}
         err, bad = None, None
         try:
@@ -339,7 +342,14 @@ def derived_stream(c, tmp, n, pairs, metas):
             elif rng.random() < 0.4:
                 extra = [x + 0.5 for x in extra]          # the (integer) coordinate itself becomes float
             other = xr.Dataset({"w": (("a",), np.array([float(x) for x in extra]))}, coords={"a": extra})
-            if how == "reindex":
+            if how == "concat":
+                # further rows whose values are of a wider KIND: ints after bools, complex after floats / ints
+                extra = extra[:1]
+                newv = {"bool": 7, "float": 0.5 + 2j, "int": 3 + 1j}.get(kind, 300)
+                neww = (0.25 + 1j) if rng.random() < 0.5 else 1.5
+                more = xr.Dataset({"v": (("a",), np.array([newv])), "w": (("a",), np.array([neww]))}, coords={"a": extra})
+                derived = xr.concat([loaded, more], "a")
+            elif how == "reindex":
                 derived = loaded.reindex(a=a + extra)
             elif how == "merge":
                 derived = xr.merge([loaded, other])
